@@ -23,6 +23,8 @@ type listSubj[T comparable] struct {
 	l        lists.List[T]
 	m        []T
 	scribble bool // C16: the simulated caller overwrites every slice it passed right after the call
+	lastArgs  []T    // copy of the slice last built by vals()
+	argDamage string // first difference a callee left in a slice passed to it
 	garbage  T
 }
 
@@ -66,12 +68,22 @@ func (s *listSubj[T]) vals(idx []int) []T {
 	for i, k := range idx {
 		out[i] = s.d.At(k)
 	}
+	if s.scribble {
+		s.lastArgs = slices.Clone(out)
+	}
 	return out
 }
+
+// ArgDamage reports (once) what a callee did to a slice passed to it: the caller's slice, including its
+// spare capacity, must read the same after the call as before (C16).
+func (s *listSubj[T]) ArgDamage() string { d := s.argDamage; s.argDamage = ""; return d }
 
 func (s *listSubj[T]) afterCall(vs []T) {
 	if !s.scribble {
 		return
+	}
+	if dmg := argDamage(vs, s.lastArgs, s.d.Str); dmg != "" && s.argDamage == "" {
+		s.argDamage = dmg
 	}
 	for i := range vs {
 		vs[i] = s.garbage
@@ -174,6 +186,10 @@ func (s *listSubj[T]) ModelApply(op Op) {
 		s.m = nil
 	case "Fill":
 		s.m = append(slices.Clone(s.m), s.vals(fillIdx(a))...)
+	case "Shrink": // remove from the end until a[0] elements are left
+		if len(s.m) > a[0] {
+			s.m = slices.Clone(s.m[:a[0]])
+		}
 	case "New":
 		s.m = s.vals(a)
 	default:
@@ -233,6 +249,10 @@ func (s *listSubj[T]) Step(op Op, o *Oracle) {
 		s.l.Clear()
 	case "Fill":
 		s.l.Add(s.vals(fillIdx(a))...)
+	case "Shrink":
+		for n := len(s.m); n > a[0]; n-- {
+			s.l.Remove(n - 1)
+		}
 	case "New":
 		vs := s.vals(a)
 		s.l = makeList[T](s.cfg.Kind, vs...)
@@ -274,14 +294,14 @@ func (s *listSubj[T]) check(o *Oracle) {
 		if !o.On("C03") {
 			tag = "C16"
 		}
-		if !slices.Equal(vals, s.m) {
+		if !sameSeq(s.d, vals, s.m) {
 			o.Fail(tag, "values", "after %s: Values()=%s, sequence model=%s", o.cur, joinS(vals, s.d.Str), joinS(s.m, s.d.Str))
 		}
 	}
 	if o.On("C03") {
 		o.Eq("C03", "size", s.l.Size(), len(s.m))
 		for i := -1; i <= len(s.m); i++ {
-			if s.cfg.Mode == "big" && i > 8 && i < len(s.m)-8 && (i+o.cur.ID)%41 != 0 {
+			if s.cfg.Mode == "big" && i > 8 && i < len(s.m)-8 && (i+o.cur.ID)%max(41, len(s.m)/48) != 0 {
 				continue
 			}
 			v, ok := s.l.Get(i)
@@ -290,7 +310,7 @@ func (s *listSubj[T]) check(o *Oracle) {
 			if wok {
 				wv = s.m[i]
 			}
-			if ok != wok || v != wv {
+			if ok != wok || !sameElem(s.d, v, wv) {
 				o.Fail("C03", "get", "after %s: Get(%d)=(%s,%v), want (%s,%v)", o.cur, i, s.d.Str(v), ok, s.d.Str(wv), wok)
 			}
 		}
@@ -395,6 +415,13 @@ func (s *listSubj[T]) DoRead(op Op) string {
 		v, ok := s.l.Get(a[0])
 		return fmt.Sprintf("%s,%v", d.Str(v), ok)
 	case "Contains":
+		if a[2] == 6 { // a long argument list
+			many := make([]T, 33+a[1]%16)
+			for j := range many {
+				many[j] = d.At(a[1] + j*(1+a[0]&1))
+			}
+			return strconv.FormatBool(s.l.Contains(many...))
+		}
 		return strconv.FormatBool(s.l.Contains(d.At(a[1]), d.At(a[1]+a[2])))
 	case "IndexOf":
 		return strconv.Itoa(s.l.(indexOfer[T]).IndexOf(d.At(a[1])))
